@@ -26,9 +26,10 @@ type World struct {
 }
 
 type WriteSet struct {
-	Vars map[string]Sort
-	All  bool
-	Why  string // why All
+	Vars   map[string]Sort
+	All    bool
+	Why    string // why All
+	Yields bool   // contains an interference point (lock, wait, channel operation)
 }
 
 func (w *WriteSet) add(name string, s Sort) { w.Vars[name] = s }
@@ -36,6 +37,9 @@ func (w *WriteSet) merge(o *WriteSet) {
 	if o.All && !w.All {
 		w.All = true
 		w.Why = o.Why
+	}
+	if o.Yields {
+		w.Yields = true
 	}
 	for k, v := range o.Vars {
 		w.Vars[k] = v
